@@ -34,7 +34,7 @@ DEFAULT_PROFILE: Dict[str, Any] = {
     "places": ["inline", "inline", "task", "soon"],
     "fnames": ["w", "w", "x"],
     "end_with_close": 0.0,
-    "cancel_refs": ["run", "run", "run", "live", "stale", "never", "neg", "incb", "any"],
+    "cancel_refs": ["run", "run", "run", "live", "stale", "never", "neg", "incb", "any", "self"],
 }
 
 
